@@ -21,11 +21,13 @@ from harness import core
 
 MODULE = 'PyPhysim.Properties.C05'
 DRIVER = 'drv_c05'
+GENERATED = ['C05Loop', 'C05Grid']
 
 CLAIM = {
     'technique': 'Lean 4 induction over outcome streams and variation lists (loop invariant against a fold '
                  'specification, mixed-radix indexing, numpy slice = filter on digits) + exact event-log '
-                 'correspondence with a scripted SimulationRunner',
+                 'correspondence with a scripted SimulationRunner; the control skeleton of one variation is '
+                 'regenerated from the AST on every run and proved equal to the model',
     'text': 'Kernel-checked for every results type and merge operation (no law assumed), every rep_max, every '
             '_keep_going predicate of (merged results, skip counter, repetition index, variation), every loaded '
             'start state, every outcome stream and every runner state: one variation consumes exactly the minimal '
@@ -51,7 +53,24 @@ CLAIM = {
             'and exhaustively enumerated small scenarios, and on seeded histories that interleave simulate(), look-ups '
             'and mutations of the parameter set on one runner / one SimulationParameters object (each look-up also '
             'compared with a freshly constructed object of the same content); independent oracles re-check the property on the real '
-            'code from the raw event log.',
+            'code from the raw event log. Second tie, by regeneration: on every run '
+            'SimulationRunner._simulate_for_current_params_common is executed symbolically from the current AST '
+            '(private helpers inlined, while True + break / continue, if / else in either polarity, tuple returns '
+            'followed) into an automaton whose states are the program points waiting for a repetition '
+            '(Generated/C05Loop.lean: load-or-first-repetition with retry, the tests _keep_going then '
+            'rep < rep_max in source order, merge / current_rep / num_skipped_reps updates on ok and on skip, the '
+            'periodic-save call, the final save and the return); generated_loop_matches_model proves that this '
+            'automaton run on ANY outcome stream, keep predicate, rep_max and start equals runVariation of the hand '
+            'model, generated_final_save_is_returned that the final save receives what is returned, '
+            'generated_guard_order / generated_periodic_save_once_per_iteration pin the order of the two stop tests '
+            'and the one periodic-save call per loop iteration. A semantic edit of the skeleton is refused by the '
+            'translator or breaks one of these proofs; renamings, extraction into private helpers and '
+            'while True + break restructurings regenerate the same module. Likewise get_unpacked_params_list and '
+            'get_num_unpacked_variations are re-evaluated from the AST over a small algebra of list terms (loops '
+            'over a symbolic list are executed once and summarised as maps / families of dictionary entries; '
+            'Generated/C05Grid.lean) and generated_grid_matches_model proves: the combinations are the product over '
+            'the name-SORTED parameters with the names paired in the same order, _unpack_index is the list position, '
+            'the number of variations (a product of lengths in any order) is the product of the dimensions.',
     'note': 'Trusted beyond the common base: the hand model <-> code correspondence (a behaviour not reached by '
             'the generators is not tied), numpy reshape/indexing modelled as row-major index arithmetic, pickle '
             'round trip of partial results, Python str ordering = Lean String ordering. Partial: lookup theorems '
@@ -3483,7 +3502,7 @@ def check(ctx):
                 'shape, set of stop reasons limit/rule, skips present, file, op kinds) with at least one completed '
                 'variation')
     quick = ctx.tier == 'quick'
-    core.prove(ctx, MODULE, drivers=[DRIVER], scratch=ctx.scratch)
+    core.prove(ctx, MODULE, generated=GENERATED, drivers=[DRIVER], scratch=ctx.scratch)
     ctx.required_branches = ['stop:limit', 'stop:rule', 'skips', 'params=0', 'params=1', 'params=2', 'params=3',
                              'resume-from-partial-file', 'repeated-simulate-no-file', 'single-variation',
                              'lookup:ok', 'grid:pack-error', 'status:Exhausted', 'status:RuntimeError',
